@@ -598,6 +598,44 @@ func hasDotStarPrefix(re *syntax.Regexp) bool {
 		(first.Sub[0].Op == syntax.OpAnyChar || first.Sub[0].Op == syntax.OpAnyCharNotNL)
 }
 
+// isDotStarLiteral reports whether re is exactly `.*literal`, possibly wrapped in
+// capture groups (`(.*)\.txt`, `(.*\.txt)`): a greedy .* that excludes '\n' followed
+// by one case-sensitive literal whose bytes are suffix and contain no '\n'.
+//
+// For this shape alone a match is known from the position of the suffix literal:
+// it starts at the beginning of the line and ends at the last suffix on the line.
+// `.*?\.txt` (lazy), `(?s).*\.txt` (crosses lines) and `.*[0-9]\.txt` (more than
+// a literal after the wildcard) need the automata.
+func isDotStarLiteral(re *syntax.Regexp, suffix []byte) bool {
+	if !hasDotStarPrefix(re) {
+		return false
+	}
+	unwrap := func(re *syntax.Regexp) *syntax.Regexp {
+		for re.Op == syntax.OpCapture && len(re.Sub) == 1 {
+			re = re.Sub[0]
+		}
+		return re
+	}
+	re = unwrap(re)
+	if re.Op != syntax.OpConcat || len(re.Sub) != 2 {
+		return false
+	}
+	wild, lit := unwrap(re.Sub[0]), unwrap(re.Sub[1])
+	if wild.Op != syntax.OpStar || wild.Flags&syntax.NonGreedy != 0 ||
+		len(wild.Sub) != 1 || wild.Sub[0].Op != syntax.OpAnyCharNotNL {
+		return false
+	}
+	if lit.Op != syntax.OpLiteral || lit.Flags&syntax.FoldCase != 0 {
+		return false
+	}
+	for _, r := range lit.Rune {
+		if r == '\n' {
+			return false
+		}
+	}
+	return len(suffix) > 0 && string(lit.Rune) == string(suffix)
+}
+
 // isWildcardSubexpression checks if a subexpression acts as a "wildcard" that can
 // consume variable-length input. Used by isSafeForReverseSuffix to identify patterns
 // suitable for reverse suffix search.
